@@ -108,6 +108,31 @@ func ewVals(d ref.DT, n int, vs string) (a, b []interface{}, s interface{}) {
 		}
 		sp := specialScalars(d)
 		s = sp[int(vs[5]-'0')%len(sp)]
+	case "round": // floats: magnitudes at which a sum of two operands rounds, so that re-associated accumulation shows
+		u := float64(uint64(1) << 53)
+		if d.Name == "float32" || d.Name == "complex64" {
+			u = float64(1 << 24)
+		}
+		av := []float64{u + 2, u, 3, u + 4, 0.1}
+		bv := []float64{u, u, 2, u + 2, 0.2}
+		for i := 0; i < n; i++ {
+			a[i] = ref.FromFloat(d, av[i%len(av)])
+			b[i] = ref.FromFloat(d, bv[i%len(bv)])
+		}
+		s = ref.FromFloat(d, u)
+	case "recip": // floats: subnormal dividends whose exact quotient by 98 / 210 is a tie between neighbouring values -
+		// x/b and x*(1/b) (also with the reciprocal taken in a wider type) round differently there
+		tiny := math.SmallestNonzeroFloat64
+		if d.Name == "float32" || d.Name == "complex64" {
+			tiny = float64(math.SmallestNonzeroFloat32)
+		}
+		av := []float64{147, 343, 525, 49, 3, 245, 735}
+		bv := []float64{98, 98, 210, 98, 2, 98, 210}
+		for i := 0; i < n; i++ {
+			a[i] = ref.FromFloat(d, av[i%len(av)]*tiny)
+			b[i] = ref.FromFloat(d, bv[i%len(bv)])
+		}
+		s = ref.FromFloat(d, 98)
 	case "edge2":
 		e := edgeVals(d)
 		for i := 0; i < n; i++ {
@@ -342,6 +367,15 @@ func ewExec(r *core.Run, c ewCase) (*core.Fail, string) {
 		case "wrongsize":
 			dv = append(dv, resDT.Code(9))
 			D, err = atlas.Build(resDT, []int{n + 1}, dv, "C")
+		case "wrongtype": // right shape, another element type than the result has
+			wdt := ref.Float64
+			if resDT.Name == "float64" {
+				wdt = ref.Float32
+			}
+			for i := range dv {
+				dv[i] = wdt.Code(i%3 + 1)
+			}
+			D, err = atlas.Build(wdt, shape, dv, "C")
 		default:
 			D, err = atlas.Build(resDT, shape, dv, lay)
 		}
@@ -484,6 +518,13 @@ func ewExec(r *core.Run, c ewCase) (*core.Fail, string) {
 	}
 	wrongSize := strings.HasSuffix(mode, ":wrongsize")
 	_ = wrongSize
+	if strings.HasSuffix(mode, ":wrongtype") {
+		// "mismatched element types are refused": a destination of another element type than the result cannot hold it
+		if o.Class == "ok" && supported(c.kind, c.op, d) {
+			return core.F("accepted-invalid", "wrongtype", "%s of %s operands wrote into a reuse tensor of element type %s (the result has %s): refused is the only right answer", c.op, d.Name, dest.DT.Name, resDT.Name), o.Class
+		}
+		return nil, "refused-as-required"
+	}
 	if !supported(c.kind, c.op, d) {
 		// the library does not offer this operation for this element type: it must then refuse it everywhere
 		if o.Class == "ok" {
